@@ -763,6 +763,11 @@ func main() {
 	run := fw.Start("C11", "model_checking")
 	dirs := newHostDirs()
 	defer os.RemoveAll(dirs.root)
+	if len(os.Args) > 2 && os.Args[2] == "probe" {
+		probe(dirs)
+		os.RemoveAll(dirs.root)
+		return
+	}
 	if len(os.Args) > 2 && os.Args[2] == "bench" {
 		bench(dirs)
 		os.RemoveAll(dirs.root)
